@@ -95,6 +95,18 @@ Theorem C20_session_create_fresh : forall next pids pmacs ops h mac id,
 Proof. exact session_create_fresh. Qed.
 Print Assumptions C20_session_create_fresh.
 
+(* the op lists of the two theorems above contain [SSetNext n] (1 <= n <= 65535) at any position: the counter
+   may stand ANYWHERE relative to the ids in use, not only where consecutive creations from 1 leave it.
+   Non-vacuity at the wrap: ids 65535 and 1 are in use, the counter stands on 65535; the scan crosses
+   65535 -> (0 skipped) -> 1, finds 1 in use and issues 2; the session on id 1 is untouched *)
+Example C20_session_wrap_occupied_example :
+  let st := s_run (s_init 1 [] []) [SSetNext 65535; SCreate 0 10; SCreate 1 11; SSetNext 65535; SCreate 2 12] in
+  map sid (s_live st) = [65535; 1; 2] /\ aget (s_sess st) 1 = Some (1, 11) /\ aget (s_mac st) 11 = Some 1 /\
+  s_next st = 3 /\
+  o_ret (snd (fst (s_step (s_run (s_init 1 [] []) [SSetNext 65535; SCreate 0 10; SCreate 1 11; SSetNext 65535])
+                          (SCreate 2 12)))) = RKey 2.
+Proof. vm_compute. repeat split. Qed.
+
 (* the MAC index: refuted for two sessions from one MAC (known finding K20a, marker 2005) ... *)
 Theorem C20_session_mac_index_agrees_refuted :
   exists ops, ~ mac_index_agrees (s_run (s_init 1 [] []) ops).
